@@ -294,6 +294,13 @@ def chain_session(exe, wd, salt):
         V("leafflip@%.2f" % fr, ch=pem_flip(s.read("signcert.pem"), fr) + s.read("ca.pem"), untouched=False)
         V("caflip@%.2f" % fr, ch=s.read("signcert.pem") + pem_flip(s.read("ca.pem"), fr), untouched=False)
     V("enc-leaf-as-signer", ch=s.read("enccert.pem") + s.read("ca.pem"))          # a chain is a chain: certverify does not ask for a purpose
+    # a certificate issued by an END-ENTITY certificate (no basicConstraints, keyUsage digitalSignature only): its issuer is not a CA
+    dn = ["-C", "CN", "-ST", "Beijing", "-L", "Haidian", "-O", "PKU", "-OU", "CS"]
+    s.tool(["sm2keygen", "-pass", P, "-out", s.p("l2key.pem")])
+    s.tool(["reqgen"] + dn + ["-CN", "below-a-leaf", "-key", s.p("l2key.pem"), "-pass", P, "-out", s.p("l2req.pem")])
+    s.tool(["reqsign", "-in", s.p("l2req.pem"), "-days", "30", "-key_usage", "digitalSignature", "-cacert", s.p("signcert.pem"), "-key", s.p("signkey.pem"), "-pass", P, "-out", s.p("l2cert.pem")])
+    if s.read("l2cert.pem"):
+        V("issuer-not-a-ca", ch=s.read("l2cert.pem") + s.read("signcert.pem") + s.read("ca.pem"), untouched=False)
     return s
 
 
